@@ -323,4 +323,100 @@ def packedCodec : Codec :=
   { encHeader := packedEncHeader, decHeader := packedDecHeader, encMember := packedEncMember,
     decMember := packedDecMember, failUse := fun _ _ => 0 }
 
+/-! ### unbounded: a codec for the model's own value space (natural numbers of any size), self-delimiting unary.
+    Not a codec anybody would ship; it exists to show that the codec contract the whole-history theorems assume
+    ("reads back every header and member it wrote") is satisfiable over *all* model values, so that those theorems
+    are not vacuous. -/
+
+def encNat (n : Nat) : Bytes := List.replicate n 1 ++ [0]
+
+def decNat : Bytes → Option (Nat × Bytes)
+  | [] => none
+  | b :: r => if b == 0 then some (0, r) else (decNat r).map fun (n, r') => (n + 1, r')
+
+def natEncId (i : Id) : Bytes := encNat i.addr ++ encNat i.gen
+
+def natDecId (b : Bytes) : Option (Id × Bytes) :=
+  match decNat b with
+  | none => none
+  | some (a, b1) =>
+    match decNat b1 with
+    | none => none
+    | some (g, b2) => some (⟨a, g⟩, b2)
+
+def natEncMsg : Msg → Bytes
+  | .ping n => encNat 0 ++ encNat n
+  | .ack n => encNat 1 ++ encNat n
+  | .pingReq t n => encNat 2 ++ natEncId t ++ encNat n
+  | .indirectPing o n => encNat 3 ++ natEncId o ++ encNat n
+  | .indirectAck t n => encNat 4 ++ natEncId t ++ encNat n
+  | .forwardedAck o n => encNat 5 ++ natEncId o ++ encNat n
+  | .announce => encNat 6
+  | .feed => encNat 7
+  | .gossip => encNat 8
+  | .broadcast => encNat 9
+  | .turnUndead => encNat 10
+
+def natDecIdNum (b : Bytes) : Option (Id × Nat × Bytes) :=
+  match natDecId b with
+  | none => none
+  | some (i, b1) =>
+    match decNat b1 with
+    | none => none
+    | some (n, b2) => some (i, n, b2)
+
+def natDecMsg (b : Bytes) : Option (Msg × Bytes) :=
+  match decNat b with
+  | none => none
+  | some (t, b1) =>
+    match t with
+    | 0 => (decNat b1).map fun (n, r) => (.ping n, r)
+    | 1 => (decNat b1).map fun (n, r) => (.ack n, r)
+    | 2 => (natDecIdNum b1).map fun (i, n, r) => (.pingReq i n, r)
+    | 3 => (natDecIdNum b1).map fun (i, n, r) => (.indirectPing i n, r)
+    | 4 => (natDecIdNum b1).map fun (i, n, r) => (.indirectAck i n, r)
+    | 5 => (natDecIdNum b1).map fun (i, n, r) => (.forwardedAck i n, r)
+    | 6 => some (.announce, b1)
+    | 7 => some (.feed, b1)
+    | 8 => some (.gossip, b1)
+    | 9 => some (.broadcast, b1)
+    | 10 => some (.turnUndead, b1)
+    | _ => none
+
+def natEncHeader (h : Header) : Bytes := natEncId h.src ++ encNat h.srcInc ++ natEncId h.dst ++ natEncMsg h.msg
+
+def natDecHeader (b : Bytes) : Option (Header × Bytes) :=
+  match natDecId b with
+  | none => none
+  | some (src, b1) =>
+    match decNat b1 with
+    | none => none
+    | some (inc, b2) =>
+      match natDecId b2 with
+      | none => none
+      | some (dst, b3) =>
+        match natDecMsg b3 with
+        | none => none
+        | some (m, b4) => some (⟨src, inc, dst, m⟩, b4)
+
+def natEncMember (m : Member) : Bytes := natEncId m.id ++ encNat m.inc ++ encNat (stTag m.st)
+
+def natDecMember (b : Bytes) : Option (Member × Bytes) :=
+  match natDecId b with
+  | none => none
+  | some (i, b1) =>
+    match decNat b1 with
+    | none => none
+    | some (inc, b2) =>
+      match decNat b2 with
+      | none => none
+      | some (t, b3) =>
+        match stOfTag t with
+        | none => none
+        | some st => some (⟨i, inc, st⟩, b3)
+
+def natCodec : Codec :=
+  { encHeader := natEncHeader, decHeader := natDecHeader, encMember := natEncMember, decMember := natDecMember,
+    failUse := fun _ _ => 0 }
+
 end Foca
